@@ -6,6 +6,7 @@
 #include <map>
 #include <sstream>
 #include <string>
+#include <vector>
 using namespace ctpg; using namespace ctpg::buffers;
 
 struct ledger { long created = 0, destroyed = 0, moves = 0, moved_from_reads = 0, double_destroy = 0; std::map<const void*, int> live; };
@@ -45,7 +46,45 @@ static void run(const char* in, const char* want) {
   bool ok = got == want && L.live.empty() && L.moved_from_reads == before.moved_from_reads && L.double_destroy == 0 && (L.created - before.created) == (L.destroyed - before.destroyed);
   if (!ok) { ++fails; std::cout << "FAIL input '" << in << "': result " << got << " (want " << want << "), alive afterwards " << L.live.size() << ", created " << (L.created - before.created) << ", destroyed " << (L.destroyed - before.destroyed) << ", reads of moved-from values " << (L.moved_from_reads - before.moved_from_reads) << ", double destructions " << L.double_destroy << "\n"; }
 }
+// --- rules WITHOUT functor (pass-through and aggregate), the push_back helper, and stacks deeper than the initial reservation
+struct pairv { val a, b; pairv(val&& x, val&& y) : a(std::move(x)), b(std::move(y)) {} pairv(pairv&&) = default; pairv& operator=(pairv&&) = default; pairv(const pairv&) = delete; };
+struct counted { static inline long copies = 0; int v = 0; counted() = default; explicit counted(int x) : v(x) {} counted(counted&&) = default; counted& operator=(counted&&) = default;
+  counted(const counted& o) : v(o.v) { ++copies; } counted& operator=(const counted& o) { v = o.v; ++copies; return *this; } };
+struct clist { static inline long copies = 0; std::vector<counted> items; clist() = default; clist(clist&&) = default; clist& operator=(clist&&) = default;
+  clist(const clist& o) : items(o.items) { ++copies; } clist& operator=(const clist& o) { items = o.items; ++copies; return *this; } void push_back(const counted& c) { items.push_back(c); } };
+constexpr nterm<val> leaf("leaf"), mid("mid"); constexpr nterm<pairv> top("top");
+constexpr nterm<clist> cl("cl"); constexpr nterm<counted> ci("ci");
+constexpr nterm<val> rl("rl"), ra("ra");
+static int extra() {
+  int bad = 0;
+  { static const parser q(top, terms('a', ','), nterms(top, mid, leaf), rules(
+      top(mid, ',', mid) >= [](val&& x, skip, val&& y) { return pairv(std::move(x), std::move(y)); },
+      mid(leaf),                                                        // no functor: mid constructed from leaf - must MOVE
+      leaf('a') >= [](skip) { return val("a"); }));
+    ledger before = L;
+    { auto r = q.parse(string_buffer("a,a")); if (!(r && r->a.read() == "a" && r->b.read() == "a")) { ++bad; std::cout << "FAIL functor-less rule: wrong result\n"; } }
+    if (!L.live.empty() || L.moved_from_reads != before.moved_from_reads || (L.created - before.created) != (L.destroyed - before.destroyed)) { ++bad; std::cout << "FAIL functor-less rule: leaked / reused value\n"; } }
+  { static const parser q(cl, terms('1', ','), nterms(cl, ci), rules(
+      cl() >= ftors::create<clist>{}, cl(cl, ci, ',') >= ftors::push_back<1, 2>{}, ci('1') >= [](skip) { return counted(1); }));
+    clist::copies = 0; counted::copies = 0;
+    auto r = q.parse(string_buffer("1,1,1,1,1,1,1,1,"));
+    if (!(r && r->items.size() == 8)) { ++bad; std::cout << "FAIL push_back list: wrong result\n"; }
+    if (clist::copies != 0) { ++bad; std::cout << "FAIL push_back helper copied the container " << clist::copies << " times (expected 0)\n"; }
+    if (counted::copies != 8) { ++bad; std::cout << "FAIL push_back helper copied elements " << counted::copies << " times (expected 8: one per push_back)\n"; } }
+  { static const parser q(rl, terms('a', '.'), nterms(rl, ra), rules(
+      rl(ra) >= [](val&& x) { return val(x.read()); }, rl(ra, rl) >= [](val&& x, val&& r) { return val(std::to_string(x.read().size() + std::stoul(r.read()))); },
+      ra('a', '.') >= [](skip, skip) { return val("1"); }));
+    for (size_t n : {1000u, 1023u, 1024u, 1025u, 2049u, 3000u}) {
+      std::string in; for (size_t i = 0; i < n; ++i) in += "a.";
+      ledger before = L; std::string got;
+      try { auto r = q.parse(string_buffer(std::move(in))); got = r ? r->read() : "<none>"; } catch (const std::exception& e) { got = std::string("threw ") + e.what(); }
+      if (got != std::to_string(n) || !L.live.empty() || L.moved_from_reads != before.moved_from_reads || L.double_destroy != 0) {
+        ++bad; std::cout << "FAIL right-recursive list of " << n << " values: result " << got << ", alive " << L.live.size() << ", moved-from reads " << (L.moved_from_reads - before.moved_from_reads) << "\n"; L.live.clear(); }
+    } }
+  return bad;
+}
 int main() {
+  fails += extra();
   run("1;2+3;", "[]1;(2+3);");
   run("", "[]");
   run("1+2+3;(4);", "[]((1+2)+3);4;");
